@@ -207,7 +207,7 @@ pub fn walk_tasks(ctx: &Ctx, corp: &corpus::Corpus) -> Vec<WalkTask> {
     }
     // corpus positions: the deepest walk whose estimated size fits the per-position budget
     // (estimate from the oracle's perft(2): nodes(d) ~ perft2^(d/2))
-    let budget = ctx.tier.pick(8_000.0f64, 200_000.0);
+    let budget = ctx.tier.pick(8_000.0f64, 100_000.0);
     for (i, p) in corp.positions.iter().enumerate() {
         let n2 = super::oracle::perft(p, 2).max(2) as f64;
         let mut d = 1u32;
@@ -385,7 +385,7 @@ pub fn replay(_ctx: &Ctx, case: &Value) -> Report {
 }
 
 pub const LEVEL: &str = "exploration";
-pub const RULE: &str = "positions = every node of bounded exhaustive lock-step walks (start position to depth 4 quick / 5 thorough, every corpus FEN to the deepest depth (1..6) whose estimated walk fits 8 000 / 200 000 nodes) plus every position of proptest-generated games (uniform and special-move-weighted) from startpos / corpus / synthesised / pattern starts. At each: engine legal-move multiset == oracle set (both directions, no duplicates), every offered move produces the oracle's successor placement, engine flags == oracle flags, is_in_check for both colours. Non-trivial = position whose legal set differs from its pseudo-legal set (pin / check evasion) or that offers castling, e.p. or promotion, or where castling/e.p. is pseudo-available but illegal, or mate/stalemate; distinct by position identity (placement, side, rights, e.p. file).";
+pub const RULE: &str = "positions = every node of bounded exhaustive lock-step walks (start position to depth 4 quick / 5 thorough, every corpus FEN to the deepest depth (1..6) whose estimated walk fits 8 000 / 100 000 nodes) plus every position of proptest-generated games (uniform and special-move-weighted) from startpos / corpus / synthesised / pattern starts. At each: engine legal-move multiset == oracle set (both directions, no duplicates), every offered move produces the oracle's successor placement, engine flags == oracle flags, is_in_check for both colours. Non-trivial = position whose legal set differs from its pseudo-legal set (pin / check evasion) or that offers castling, e.p. or promotion, or where castling/e.p. is pseudo-available but illegal, or mate/stalemate; distinct by position identity (placement, side, rights, e.p. file).";
 pub const ASSUMPTIONS: &[&str] = &[
     "the independent rules oracle (vf/oracle.rs), validated against published perft values at the start of every run",
     "FEN loading of the start positions (C07's subject) is used to set positions up",
